@@ -7,7 +7,7 @@ From Coq Require Import String Ascii.
 From Coq Require Import List Arith Bool.
 Require Import TT.Model.Str TT.Model.TypeParse TT.Spec.TsType TT.Model.Render TT.Model.C05Emit.
 Require Import TT.Spec.C05Spec TT.Spec.C05Known TT.Spec.C18Spec TT.Spec.C18Known.
-Require Import TT.Proofs.TypeParseProofs TT.Proofs.RenderProofs TT.Proofs.C05Proofs TT.Proofs.C05Sweep TT.Proofs.C18Proofs.
+Require Import TT.Proofs.TypeParseProofs TT.Proofs.RenderProofs TT.Proofs.C05Proofs TT.Proofs.C05Sweep TT.Proofs.C05Examples TT.Proofs.C18Proofs.
 Import ListNotations.
 Local Open Scope string_scope.
 
@@ -48,23 +48,16 @@ Theorem C18_subst_plain : forall m t, mapping_ok m -> dom_m m t = true ->
 Proof. exact sound_plain. Qed.
 
 (* All five sites, both modes, every constructor spine to depth 2 over String, i32, PathBuf, Uuid,
-   DateTime<Utc>, User, table PathBuf->string, Uuid->number, DateTime<Utc>->boolean: outside the
-   classes the relational oracle accepts the model's two texts. Bounded, hence _partial. *)
+   DateTime<Utc>, User, table PathBuf->string, Uuid->number, DateTime<Utc>->boolean.
+   [subst_at m s md t] reads: the model prints a text with and without the table and, unless the
+   case lies in a recorded class (kf_C18), the relational oracle c18_ok accepts the pair.
+   Bounded, hence _partial. *)
 Theorem C18_sweep_depth2_partial :
-  forall t, In t spines18_2 -> forall s md,
-    dom_m table18 t = true /\
-    (kf_C18 s md table18 t = false ->
-     exists w wo, emit_type s md table18 t = Some w /\ emit_type s md [] t = Some wo /\
-                  c18_ok (site_is_type s md) table18 t w wo = true).
-Proof.
-  intros t Ht s md. destruct sweep18_depth2 as [H Hd]. split.
-  - rewrite forallb_forall in Hd. auto.
-  - intros Hk. unfold sweep in H. rewrite forallb_forall in H. specialize (H t Ht). rewrite forallb_forall in H.
-    assert (Hs : In s sites_all) by (destruct s; simpl; tauto). specialize (H s Hs). rewrite forallb_forall in H.
-    assert (Hm : In md modes_all) by (destruct md; simpl; tauto). specialize (H md Hm).
-    unfold subst_at in H. destruct (emit_type s md table18 t) as [w|]; [|discriminate].
-    destruct (emit_type s md [] t) as [wo|]; [|discriminate]. exists w, wo. rewrite Hk in H. auto.
-Qed.
+  forall t, In t spines18_2 -> forall s md, subst_at table18 s md t = true.
+Proof. exact (sweep_spec (subst_at table18) spines18_2 (proj1 sweep18_depth2)). Qed.
+Theorem C18_sweep_domain_depth2_partial :
+  forall t, In t spines18_2 -> dom_m table18 t = true.
+Proof. exact (proj1 (forallb_forall (dom_m table18) spines18_2) (proj2 sweep18_depth2)). Qed.
 
 (* the classes are genuine failures of the faithful model *)
 Theorem C18_prefix_on_target_refuted :
@@ -107,17 +100,15 @@ Proof. cbv zeta. split.
     destruct Hn as [<-|[<-|[]]]; vm_compute; reflexivity.
   - vm_compute. reflexivity. Qed.
 Example C18_sweep_premises :
-  In (RPath (L "Option") [RPath (L "Vec") [RPath (L "Uuid") []]]) spines18_2 /\
-  kf_C18 SReturn MZod table18 (RPath (L "Option") [RPath (L "Vec") [RPath (L "Uuid") []]]) = false.
-Proof. split; [|vm_compute; reflexivity].
-  apply (proj1 (existsb_exists (fun x => if list_eq_dec ascii_dec (tts x) (L "Option<Vec<Uuid>>") then true else false) spines18_2)).
-  vm_compute. reflexivity. Qed.
+  exists t, In t spines18_2 /\ tts t = L "Option<Vec<Uuid>>" /\ kf_C18 SReturn MZod table18 t = false.
+Proof. exact sweep18_premises_example. Qed.
 
 Print Assumptions C18_frame.
 Print Assumptions C18_frame_type.
 Print Assumptions C18_render_subst.
 Print Assumptions C18_subst_plain.
 Print Assumptions C18_sweep_depth2_partial.
+Print Assumptions C18_sweep_domain_depth2_partial.
 Print Assumptions C18_prefix_on_target_refuted.
 Print Assumptions C18_tuple_comma_refuted.
 Print Assumptions C18_result_comma_refuted.
